@@ -722,6 +722,7 @@ func init() {
 		triggerBeforeWaitRule(c, "C13/TRIGGER-BEFORE-WAIT")
 		clientCloseRule(c, "C13/CLIENT-CLOSE")
 		udpDeliveryLockRule(c, "C13/UDP-DELIVERY-LOCK")
+		udpPairingRule(c, "C13/UDP-REGISTRATION-PAIRED")
 	}
 }
 
@@ -1123,4 +1124,74 @@ func udpDeliveryLockRule(c *Ctx, rule string) {
 	if n == 0 {
 		r.Fail(rule, "serverUDPListener.run delivery", p.Pos(run.Pos()), "delivery call not found")
 	}
+}
+
+// udpPairingRule (added after the seeded change C13-r3m1 was missed: the RTCP registration was
+// removed with the RTP port, so the callback stayed in the listener's table after the session
+// had stopped): every registration in a server UDP listener's table has a removal on the same
+// listener with the same address and port expressions, and the other way round.
+func udpPairingRule(c *Ctx, rule string) {
+	p, r := c.P, c.R
+	r.Rule(rule, "the registrations of packet callbacks in the server UDP listeners are paired: for every addClient(listener, ip, port) there is a removeClient on the same listener with the same ip and port expressions, and no removal names a pair that is never registered (a leftover registration delivers packets to a session that has stopped)", 3)
+	add, rem := p.Func("", "serverUDPListener.addClient"), p.Func("", "serverUDPListener.removeClient")
+	if !r.Anchor(rule, "serverUDPListener.addClient / removeClient", add != nil && rem != nil) {
+		return
+	}
+	keyOf := func(ci *ssa.Call) string {
+		var parts []string
+		for i := 0; i < 3 && i < len(ci.Call.Args); i++ {
+			a := ci.Call.Args[i]
+			s := core.PathOf(a)
+			if call, ok := a.(*ssa.Call); ok && call.Call.StaticCallee() != nil {
+				s = fnShort(call.Call.StaticCallee()) + "("
+				for _, x := range call.Call.Args {
+					xs := core.PathOf(x)
+					if j := strings.IndexByte(xs, '.'); j >= 0 {
+						xs = xs[j:] // from the first field on: the object at hand is named differently at each site
+					}
+					s += xs
+				}
+				s += ")"
+			}
+			// the registering object itself differs between start and stop functions: compare from the
+			// first field on
+			if i := strings.IndexByte(s, '.'); i >= 0 && !strings.Contains(s[:i], "(") {
+				s = s[i:]
+			}
+			parts = append(parts, s)
+		}
+		return strings.Join(parts, " | ")
+	}
+	type site struct {
+		pos string
+		fn  string
+	}
+	adds, rems := map[string]site{}, map[string]site{}
+	for _, ref := range p.RefsTo(add) {
+		if ci, ok := ref.Instr.(*ssa.Call); ok {
+			adds[keyOf(ci)] = site{p.Pos(ci.Pos()), fnShort(ref.Caller)}
+		}
+	}
+	for _, ref := range p.RefsTo(rem) {
+		if ci, ok := ref.Instr.(*ssa.Call); ok {
+			rems[keyOf(ci)] = site{p.Pos(ci.Pos()), fnShort(ref.Caller)}
+		}
+	}
+	for _, k := range core.SortedKeys(boolKeys(adds)) {
+		_, ok := rems[k]
+		r.Check(ok, rule, "registration "+k, adds[k].pos, "removed with the same listener, address and port", "registered in "+adds[k].fn+" but never removed with the same listener, address and port: the callback stays in the table after the session stopped")
+	}
+	for _, k := range core.SortedKeys(boolKeys(rems)) {
+		if _, ok := adds[k]; !ok {
+			r.Fail(rule, "removal "+k, rems[k].pos, "removes a (listener, address, port) that is never registered: the registration it was meant for stays")
+		}
+	}
+}
+
+func boolKeys[V any](m map[string]V) map[string]bool {
+	o := map[string]bool{}
+	for k := range m {
+		o[k] = true
+	}
+	return o
 }
